@@ -311,6 +311,19 @@ def presentation(draw, X=None):
     return choice(draw, PRESENTATIONS)
 
 
+def presentation_for(draw, case, key="X"):
+    """presentation() for a training case with per-feature 'scales': the integer-typed presentation is chosen only
+    when every feature spreads over >= 10 units, and the case's rows are then rounded (so the reference, which sees
+    case[key] as float64, and the code under test, which sees the narrowest integer dtype, get the same values)."""
+    how = presentation(draw)
+    if how == "int":
+        if float(np.min(case["scales"])) >= 10.0:
+            case[key] = np.rint(np.asarray(case[key], dtype=float))
+        else:
+            how = "plain"
+    return how
+
+
 def integral(X, scale=1.0):
     """Round the rows to integers (in units that keep them distinct enough) for the 'int' presentation."""
     return np.rint(np.asarray(X, dtype=float))
